@@ -241,33 +241,34 @@ SetPrice(bn, n, d) ==
       post == [st EXCEPT !.banks[bn].cfg.fixed_price = FDiv(FOfInt(n), FOfInt(d))]
   IN Do(a, "ok", post, [banks |-> [b \in {bn} |-> [cfg |-> [fixed_price |-> post.banks[bn].cfg.fixed_price]]]])
 
-Liquidate(lor, lee, abn, lbn, q) ==
-  LET a == [op |-> "liquidate", liquidator |-> lor, liquidatee |-> lee, asset_bank |-> abn, liab_bank |-> lbn, amount |-> q]
+\* lending_account_liquidate as a function of the state: [r |-> "ok" or the error, post, obs]
+LiquidateEval(lor, lee, abn, lbn, q) ==
+  LET FL(err) == [r |-> err, post |-> st, obs |-> <<>>]
       ab0 == st.banks[abn] lb0 == st.banks[lbn] g == st.groups[lb0.group]
       sa == BankStateErr(ab0, "Paused") sl == BankStateErr(lb0, "Paused")
-  IN IF q = 0 THEN Fail(a, "ZeroLiquidationAmount")
-     ELSE IF abn = lbn THEN Fail(a, "SameAssetAndLiabilityBanks")
-     ELSE IF sa # "ok" THEN Fail(a, sa)
-     ELSE IF sl # "ok" THEN Fail(a, sl)
+  IN IF q = 0 THEN FL("ZeroLiquidationAmount")
+     ELSE IF abn = lbn THEN FL("SameAssetAndLiabilityBanks")
+     ELSE IF sa # "ok" THEN FL(sa)
+     ELSE IF sl # "ok" THEN FL(sl)
      ELSE LET ab1 == ImplAccrue(ab0, g, Now) lb1 == ImplAccrue(lb0, g, Now) IN
-     IF IsErr(ab1) THEN Fail(a, ab1.err) ELSE IF IsErr(lb1) THEN Fail(a, lb1.err)
+     IF IsErr(ab1) THEN FL(ab1.err) ELSE IF IsErr(lb1) THEN FL(lb1.err)
      ELSE LET leeBal == SortBal(st.accts[lee].bal)
               banks1 == [st.banks EXCEPT ![abn] = ab1, ![lbn] = lb1]
               i == FindSlot(leeBal, lbn)
-          IN IF i = 0 THEN Fail(a, "LendingAccountBalanceNotFound")
-             ELSE IF BLt(leeBal[i].l, IONE) THEN Fail(a, "NoLiabilitiesInLiabilityBank")
-             ELSE IF ~BLt(leeBal[i].a, IONE) THEN Fail(a, "AssetsInLiabilityBank")
+          IN IF i = 0 THEN FL("LendingAccountBalanceNotFound")
+             ELSE IF BLt(leeBal[i].l, IONE) THEN FL("NoLiabilitiesInLiabilityBank")
+             ELSE IF ~BLt(leeBal[i].a, IONE) THEN FL("AssetsInLiabilityBank")
              ELSE LET h0 == HealthComponents(Px(banks1), leeBal, "Maint") IN
-             IF IsErr(h0) THEN Fail(a, h0.err)
+             IF IsErr(h0) THEN FL(h0.err)
              ELSE LET pre == BSub(h0[1], h0[2]) IN
-             IF BIsPos(pre) THEN Fail(a, "HealthyAccount")
+             IF BIsPos(pre) THEN FL("HealthyAccount")
              \* seized collateral at its low-biased, the debt at its high-biased real-time price
              ELSE LET pxa == Px(banks1)[abn].px pxl == Px(banks1)[lbn].px IN
-             IF pxa.load # "ok" THEN Fail(a, pxa.load) ELSE IF IsErr(pxa.cRT) THEN Fail(a, pxa.cRT.err)
-             ELSE IF pxl.load # "ok" THEN Fail(a, pxl.load) ELSE IF IsErr(pxl.cRT) THEN Fail(a, pxl.cRT.err)
+             IF pxa.load # "ok" THEN FL(pxa.load) ELSE IF IsErr(pxa.cRT) THEN FL(pxa.cRT.err)
+             ELSE IF pxl.load # "ok" THEN FL(pxl.load) ELSE IF IsErr(pxl.cRT) THEN FL(pxl.cRT.err)
              ELSE LET pa == BSub(pxa.pRT, pxa.cRT.v) pl == BAdd(pxl.pRT, pxl.cRT.v) IN
-             IF ~BIsPos(pa) THEN Fail(a, "ZeroAssetPrice")
-             ELSE IF ~BIsPos(pl) THEN Fail(a, "ZeroLiabilityPrice")
+             IF ~BIsPos(pa) THEN FL("ZeroAssetPrice")
+             ELSE IF ~BIsPos(pl) THEN FL("ZeroLiabilityPrice")
              ELSE LET qF == FOfInt(q)
                       dL == BSub(FOne, IC_LIQUIDATION_LIQUIDATOR_FEE)
                       dF == BSub(FOne, BAdd(IC_LIQUIDATION_INSURANCE_FEE, IC_LIQUIDATION_LIQUIDATOR_FEE))
@@ -276,24 +277,24 @@ Liquidate(lor, lee, abn, lbn, q) ==
                       fee == BSub(qll, qlf)
                       \* liquidator takes on the liability
                       f1 == FindOrCreate(st.accts[lor].bal, lbn, lb1.key, lb1.cfg.asset_tag, Now)
-                  IN IF IsErr(f1) THEN Fail(a, f1.err)
+                  IN IF IsErr(f1) THEN FL(f1.err)
                      ELSE LET r1 == ImplDecrease(lb1, f1[1], f1[2], qll, "Bypass", Now) IN
-                     IF IsErr(r1) THEN Fail(a, r1.err)
+                     IF IsErr(r1) THEN FL(r1.err)
                      ELSE LET j == FindSlot(leeBal, abn) IN
-                     IF j = 0 THEN Fail(a, "BankAccountNotFound")
-                     ELSE IF BLt(AssetAmount(ab1, leeBal[j].a), qF) THEN Fail(a, "OverliquidationAttempt")
+                     IF j = 0 THEN FL("BankAccountNotFound")
+                     ELSE IF BLt(AssetAmount(ab1, leeBal[j].a), qF) THEN FL("OverliquidationAttempt")
                      ELSE LET r2 == ImplDecrease(ab1, leeBal, j, qF, "Bypass", Now) IN
-                     IF IsErr(r2) THEN Fail(a, r2.err)
+                     IF IsErr(r2) THEN FL(r2.err)
                      ELSE LET f3 == FindOrCreate(r1.bal, abn, ab1.key, ab1.cfg.asset_tag, Now) IN
-                     IF IsErr(f3) THEN Fail(a, f3.err)
+                     IF IsErr(f3) THEN FL(f3.err)
                      ELSE LET r3 == ImplIncrease(r2.b, f3[1], f3[2], qF, "Bypass", Now) IN
-                     IF IsErr(r3) THEN Fail(a, r3.err)
+                     IF IsErr(r3) THEN FL(r3.err)
                      ELSE LET k == FindSlot(r2.bal, lbn)
                               r4 == ImplIncrease(r1.b, r2.bal, k, qlf, "RepayOnly", Now)
-                          IN IF IsErr(r4) THEN Fail(a, r4.err)
+                          IN IF IsErr(r4) THEN FL(r4.err)
                              ELSE LET feeT == FToInt(FFloor(fee))
                                       vault == TokOf(st, lb1.vault_liq)
-                                  IN IF BLt(vault, feeT) THEN Fail(a, "A1")
+                                  IN IF BLt(vault, feeT) THEN FL("A1")
                                      ELSE LET lbF == ImplUpdateCache([r4.b EXCEPT !.fee_ins = BAdd(@, FFrac(fee))], Now)
                                               abF == ImplUpdateCache(r3.b, Now)
                                               banks2 == [st.banks EXCEPT ![abn] = abF, ![lbn] = lbF]
@@ -302,15 +303,19 @@ Liquidate(lor, lee, abn, lbn, q) ==
                                               h1 == HealthComponents(Px(banks2), leeBal2, "Maint")
                                               post == IF IsErr(h1) THEN BZero ELSE BSub(h1[1], h1[2])
                                               lorBal == SortBal(r3.bal)
-                                          IN IF BLt(leeBal2[k2].l, IONE) THEN Fail(a, "ExhaustedLiability")
-                                             ELSE IF ~BLt(leeBal2[k2].a, IONE) THEN Fail(a, "TooSeverePayoff")
-                                             ELSE IF BIsPos(post) THEN Fail(a, "TooSevereLiquidation")
-                                             ELSE IF BLe(post, pre) THEN Fail(a, "WorseHealthPostLiquidation")
+                                          IN IF BLt(leeBal2[k2].l, IONE) THEN FL("ExhaustedLiability")
+                                             ELSE IF ~BLt(leeBal2[k2].a, IONE) THEN FL("TooSeverePayoff")
+                                             ELSE IF BIsPos(post) THEN FL("TooSevereLiquidation")
+                                             ELSE IF BLe(post, pre) THEN FL("WorseHealthPostLiquidation")
                                              ELSE LET hl == ImplInitHealth(Px(banks2), lorBal) IN
-                                             IF hl # "ok" THEN Fail(a, hl)
+                                             IF hl # "ok" THEN FL(hl)
                                              ELSE LET st2 == [st EXCEPT !.banks = banks2, !.accts[lee].bal = leeBal2, !.accts[lor].bal = lorBal,
                                                                 !.tok = Xfer(@, MintOf(lbn), lbF.vault_liq, lbF.vault_ins, feeT)]
-                                                  IN Do(a, "ok", st2, Obs(st2, {abn, lbn}, {lor, lee}, {lbF.vault_liq, lbF.vault_ins}))
+                                                  IN [r |-> "ok", post |-> st2, obs |-> Obs(st2, {abn, lbn}, {lor, lee}, {lbF.vault_liq, lbF.vault_ins})]
+Liquidate(lor, lee, abn, lbn, q) ==
+  LET a == [op |-> "liquidate", liquidator |-> lor, liquidatee |-> lee, asset_bank |-> abn, liab_bank |-> lbn, amount |-> q]
+      ev == LiquidateEval(lor, lee, abn, lbn, q)
+  IN IF ev.r = "ok" THEN Do(a, "ok", ev.post, ev.obs) ELSE Fail(a, ev.r)
 
 Bankruptcy(an, bn, signer) ==
   LET a == [op |-> "bankruptcy", acct |-> an, bank |-> bn, signer |-> signer]
